@@ -43,3 +43,6 @@ Proofs/Vhd.vos Proofs/Vhd.vok Proofs/Vhd.required_vos: Proofs/Vhd.v Base/Arith.v
 Props/C04.vo Props/C04.glob Props/C04.v.beautified Props/C04.required_vo: Props/C04.v Base/Plan.vo Base/Table.vo Model/Vhd.vo Proofs/Vhd.vo
 Props/C04.vio: Props/C04.v Base/Plan.vio Base/Table.vio Model/Vhd.vio Proofs/Vhd.vio
 Props/C04.vos Props/C04.vok Props/C04.required_vos: Props/C04.v Base/Plan.vos Base/Table.vos Model/Vhd.vos Proofs/Vhd.vos
+Props/C18.vo Props/C18.glob Props/C18.v.beautified Props/C18.required_vo: Props/C18.v Model/Text.vo Model/XmlTree.vo Model/Vmx.vo Model/XmlDesc.vo
+Props/C18.vio: Props/C18.v Model/Text.vio Model/XmlTree.vio Model/Vmx.vio Model/XmlDesc.vio
+Props/C18.vos Props/C18.vok Props/C18.required_vos: Props/C18.v Model/Text.vos Model/XmlTree.vos Model/Vmx.vos Model/XmlDesc.vos
